@@ -3,6 +3,7 @@ C03 - Everything pywbem puts on the wire is well-formed, DTD-valid CIM-XML.
 DESIGN.md 4.3.
 """
 
+import re
 import urllib.parse
 
 from hypothesis import strategies as st
@@ -74,6 +75,81 @@ def _odd_namespaces(draw, recipe):
             x['namespace'] = draw(_ODD_NS)
 
 
+_ODD_NAME_PARTS = ['\x01', '\x0b', '\x1f', '\ufffe', '\uffff', '\ud800',
+                   '\udfff', ' ', '\t', '\n', '\xe4', '\u20ac', '&', '<',
+                   '>', '"', "'", '\x7f', '\x85', ']]>', '&#1;', '\x00']
+
+
+def _odd_names(draw, recipe):
+    """
+    In one of six recipes one to three of the CIM names (class names of
+    instances, classes and paths, names of properties, methods, parameters,
+    qualifiers and keys, superclass/reference class/class origin) get
+    characters that CIM names do not have: control characters, U+FFFE/U+FFFF,
+    lone surrogates, blanks, XML markup characters, non-ASCII letters.
+    pywbem does not validate names, so the call is accepted: the document
+    must still be well-formed and valid, or the call must fail locally.
+    Returns the number of names changed.
+    """
+    if draw(st.integers(0, 5)) != 0:
+        return 0
+    slots = []
+    for x in S.walk(recipe):
+        if not isinstance(x, dict):
+            continue
+        for field in ('classname', 'name', 'superclass', 'reference_class',
+                      'class_origin'):
+            if isinstance(x.get(field), str) and x[field]:
+                slots.append((x, field))
+        if x.get('k') == 'ipath' and x.get('keys'):
+            slots.append((x, 'keys'))
+    if not slots:
+        return 0
+    n = 0
+    for _ in range(1 + draw(st.integers(0, 2))):
+        x, field = slots[draw(st.integers(0, len(slots) - 1))]
+        part = draw(st.sampled_from(_ODD_NAME_PARTS))
+        if field == 'keys':
+            i = draw(st.integers(0, len(x['keys']) - 1))
+            kn, kt, kv = x['keys'][i]
+            x['keys'] = list(x['keys'])
+            x['keys'][i] = (kn[:1] + part + kn[1:], kt, kv)
+        else:
+            v = x[field]
+            pos = draw(st.integers(0, len(v)))
+            x[field] = v[:pos] + part + v[pos:]
+        n += 1
+    return n
+
+
+def _class_refs(draw, recipe, ns=None):
+    """
+    In one of five recipes the reference values (property, parameter and
+    method parameter values of type reference) become class paths, all in
+    one namespace (two class paths of one namespace in one document).
+    """
+    if draw(st.integers(0, 4)) != 0:
+        return 0
+    ns = ns or draw(st.sampled_from(['root/cimv2', 'a/b', None]))
+    host = draw(st.sampled_from([None, None, 'h'])) if ns else None
+    n = [0]
+
+    def cpath():
+        n[0] += 1
+        return {'k': 'cpath', 'classname': 'CR_%d' % (n[0] % 3),
+                'namespace': ns, 'host': host}
+
+    def conv(v):
+        if isinstance(v, list):
+            return [None if e is None else cpath() for e in v]
+        return None if v is None else cpath()
+    for x in S.walk(recipe):
+        if isinstance(x, dict) and x.get('type') == 'reference' and \
+                'value' in x and x.get('k') in ('prop', 'param'):
+            x['value'] = conv(x['value'])
+    return n[0]
+
+
 def requests_strategy():
     strings = st.one_of(S.cim_string(), S.cim_string(), S.cim_string_illegal())
 
@@ -82,6 +158,20 @@ def requests_strategy():
         op = O.ALL_OPS[draw(st.integers(0, len(O.ALL_OPS) - 1))]
         call = O.g_call(draw, op, strings=strings)
         _odd_namespaces(draw, call)
+        _odd_names(draw, call)
+        if op == 'InvokeMethod' and draw(st.integers(0, 2)) == 0:
+            # class-level target and class path parameters in one namespace
+            ns = draw(st.sampled_from(['root/cimv2', 'a/b']))
+            call['args']['ObjectName'] = {
+                'k': 'cpath', 'classname': 'CR_T', 'namespace': ns,
+                'host': None}
+            call['args']['Params'] = list(call['args']['Params']) + [
+                ('cimparam' if draw(st.booleans()) else 'tuple', 'P_cref',
+                 ('reference', False,
+                  {'k': 'cpath', 'classname': 'CR_P', 'namespace': ns,
+                   'host': None}, None))]
+        else:
+            _class_refs(draw, call)
         dns = draw(st.sampled_from([None, 'root/cimv2', 'interop', 'a/b']))
         code = draw(st.sampled_from([1, 7]))
         pull = draw(st.sampled_from([None, None, True, False]))
@@ -170,8 +260,19 @@ def _check_headers(ctx, req, root):
             # part cannot be parsed back (documented limits of untyped URIs)
             pre = '%s:%s' % (target.namespace, target.classname)
             if not any(c.lower().startswith(pre.lower()) for c in cands):
-                ctx.fail('header:CIMObject-path-differs-from-body',
-                         'header %r body %r (%s)' % (hv, target, why))
+                def wsnorm(t):
+                    return re.sub('[\t\n\r]', ' ', t).lower()
+                if any(wsnorm(c).startswith(wsnorm(pre)) for c in cands):
+                    # TAB/LF/CR inside a name: written literally into the
+                    # NAME attribute, which an XML parser normalises to a
+                    # blank (attribute-value normalisation), while the
+                    # header carries the original character
+                    ctx.fail('header:name-with-TAB-LF-CR-reads-back-with-'
+                             'blank-from-body-attribute',
+                             'header %r body %r' % (hv, target))
+                else:
+                    ctx.fail('header:CIMObject-path-differs-from-body',
+                             'header %r body %r (%s)' % (hv, target, why))
 
 
 def requests_oracle(ctx, ex):
@@ -248,8 +349,10 @@ def objects_strategy():
         else:
             r = S._g_qualdecl(draw, strings=strings)
         _odd_namespaces(draw, r)
+        _odd_names(draw, r)
+        _class_refs(draw, r)
         how = draw(st.sampled_from(['toxml', 'str', 'indent2', 'indent0',
-                                    'cdata']))
+                                    'cdata', 'twice', 'twice']))
         return (kind, r, how)
     return strat()
 
@@ -263,6 +366,21 @@ def objects_oracle(ctx, ex):
         try:
             if how == 'toxml':
                 xml = obj.tocimxml(**kw).toxml()
+            elif how == 'twice':
+                # two element trees of equal objects alive at the same time:
+                # building the second one must not change the first one
+                # (nodes shared through a cache can have only one parent)
+                el1 = obj.tocimxml(**kw)
+                xml = el1.toxml()
+                el2 = S.build(recipe).tocimxml(**kw)
+                if el1.toxml() != xml:
+                    ctx.fail('object:element-tree-changed-by-a-later-'
+                             'tocimxml', '%s: before %s\nafter %s' %
+                             (kind, xml[:600], el1.toxml()[:600]))
+                elif el2.toxml() != xml:
+                    ctx.fail('object:second-tocimxml-differs-from-the-first',
+                             '%s: first %s\nsecond %s' %
+                             (kind, xml[:600], el2.toxml()[:600]))
             elif how == 'cdata':
                 _cim_xml._CDATA_ESCAPING = True
                 xml = obj.tocimxml(**kw).toxml()
